@@ -91,14 +91,22 @@ def run_case(acc, cseed, spec, stack_holder):
     pol["ask_brothers"] = lambda i, m=ask_mask: m[i]
     chunk = gen_policy(rng)
 
-    st = stack_holder.get("s")
+    # transport: Ledger HID mostly, SGX / TCPSigner (TCP transport, own dongle classes)
+    # for a fifth of the cases
+    plat = rng.choice(["ledger", "ledger", "ledger", "ledger", "sgx", "tcp"])
+    hk = "s:" + plat
+    st = stack_holder.get(hk)
     if st is None:
-        dev = signer_device()
+        dev = signer_device(platform=plat)
+        if plat == "sgx":
+            dev.unlocked = True
         s = Stack(dev)
         s.__enter__()
         s.initialize()
-        stack_holder["s"] = st = (s, dev)
+        stack_holder[hk] = st = (s, dev)
     s, dev = st
+    if plat != "ledger":
+        acc.count("cases_over_tcp_transport")
     dev.chunk = chunk
     dev.adv_policy = pol
     if is_adv:
@@ -215,7 +223,7 @@ def run_case(acc, cseed, spec, stack_holder):
             try:
                 s.__exit__(None, None, None)
             finally:
-                stack_holder.pop("s", None)
+                stack_holder.pop(hk, None)
 
 
 def run_shard(spec, acc):
@@ -224,8 +232,8 @@ def run_shard(spec, acc):
     holder = {}
     for i in range(spec["n"]):
         run_case(acc, rng.getrandbits(48), spec, holder)
-    if "s" in holder:
-        holder["s"][0].__exit__(None, None, None)
+    for v in holder.values():
+        v[0].__exit__(None, None, None)
 
 
 def replay(case, acc):
